@@ -694,6 +694,11 @@ fn infer_generic_members_from_super_generics(
     };
 
     let type_decl_id = type_decl.get_id();
+    // The type index only filters inheritance cycles made of class edges. A cycle closed through a
+    // generic alias (`A<T>: Alias<T>`, `Alias<T> = B<T>`, `B<T>: A<T>`) reaches this walk again:
+    // remember the classes whose supers are being walked on this branch.
+    let infer_guard = infer_guard.fork();
+    infer_guard.check(&type_decl_id).ok()?;
     if let Some(super_types) = type_index.get_super_types(&type_decl_id) {
         super_types.iter().find_map(|super_type| {
             let super_type = instantiate_type_generic(db, super_type, substitutor);
